@@ -39,7 +39,7 @@ const A_TIMERS: &[&str] = &[
 ];
 
 pub fn is_pbt_engine(e: &str) -> bool {
-    matches!(e, "timers" | "scenario" | "queues")
+    matches!(e, "timers" | "scenario" | "queues" | "vm")
 }
 
 fn timers_leg(focus: &'static str, quick: u32, thorough: u32) -> Leg {
@@ -54,6 +54,50 @@ fn timers_leg(focus: &'static str, quick: u32, thorough: u32) -> Leg {
 }
 
 pub fn all() -> Vec<PropSpec> {
+    let mut v = all_base();
+    v.extend(vm_specs());
+    v
+}
+
+fn vm_leg(focus: &'static str, quick: u32, thorough: u32) -> Leg {
+    Leg::Pbt {
+        engine: "vm",
+        focus,
+        quick,
+        thorough,
+        len_q: (0, 300),
+        len_t: (0, 1200),
+    }
+}
+
+const A_VM: &[&str] = &[
+    "generated programs stay inside the documented caller contract: no re-entrant run(), no ownership cycles (owners only flow into bags that are dropped), Drop-handler deferral chains <= 96 generations, captures <= 4 KiB, virtual time on a 1 ms grid with timer expiries on the half-ms grid (sub-tick behaviour belongs to the timer engine)",
+    "one Stakker per process thread (default features): cases run sequentially per worker process; Core::new discards what a previous Stakker left in the global queue",
+    "known finding F2 (abrupt drop(stakker) with a Prep actor holding calls / a live slab parent with children) is excluded by construction and counted; its two replay programs run on every check of C05/C16",
+    "trusted: rustc/std, proptest, the specification-level monitor (validated by the mutant self-test in both directions)",
+];
+
+fn vm_specs() -> Vec<PropSpec> {
+    let mk = |id: &'static str, rule: &'static str| PropSpec {
+        min_nontrivial: 1000,
+        id,
+        legs: vec![vm_leg(id, 400_000, 20_000_000)],
+        rule,
+        assumptions: A_VM.to_vec(),
+    };
+    vec![
+        mk("C01", "byte strings decoded into programs (trees of closures submitting closures via Core::defer, Deferrer::defer, Actor::defer, call!, lazy!/idle!/timers, actors, Drop-handler tokens, run sequences, abrupt or orderly shutdown) executed on the real Stakker under the lock-step monitor; non-trivial = re-entrant submission depth >= 2 and (main queue > 1 KiB pending, or a run crossing the 60 s queue recreation, or a Drop-handler submission, or Stakker dropped with >= 1 pending closure); distinct = distinct byte strings"),
+        mk("C02", "programs weighted towards actors with immediate/asynchronous/failing/never-completing init and calls in flight; non-trivial = (>= 2 calls made while the target was Prep, >= 1 held call flushed at Ready, >= 1 call after Ready) or a termination taking effect with calls queued behind it and >= 1 call discarded; distinct = distinct byte strings"),
+        mk("C03", "programs weighted towards stacked stop/fail/kill!/direct kill/owner-drop requests; non-trivial = >= 2 termination requests aimed at one actor, or termination of a Prep actor with held calls; distinct = distinct byte strings"),
+        mk("C04", "programs weighted towards owned()/anon()/slab/clone/drop of owning and non-owning references held in locals, global registers, queued closures and actor state; non-trivial = an owner dropped while another owner of the same actor exists, or a parent with grandchildren terminated, or a slab with >= 2 children and >= 1 termination; distinct = distinct byte strings"),
+        mk("C05", "programs weighted towards Ret::new / ret_some_do! / ret_to! / ret_some_to! / prep-style Rets moved into closures, messages, timers and actor state, answered or abandoned; non-trivial = a Ret abandoned outside run/inside Stakker drop, or inside a discarded call, or in calls held by a terminating Prep actor; distinct = distinct byte strings"),
+        mk("C06", "programs weighted towards lazy!/idle!/defer items submitting each other with arbitrary run(now, idle) sequences; non-trivial = a lazy item deferred main-queue work and a run with idle=true executed an idle item while more idle items waited; distinct = distinct byte strings"),
+        mk("C15", "programs weighted towards run() instants that increase, repeat, go backwards and jump; non-trivial = a non-advancing run with work queued and an idle item executed in a run that advanced time; distinct = distinct byte strings"),
+        mk("C16", "programs with clone/drop storms on Actor/ActorOwn/Fwd/Deferrer and moves of Ret, checked by the item/message/handle registries and the per-case allocation-balance oracle (live heap allocations before == after, confirmed by re-execution); non-trivial = (main queue grown beyond 2 KiB or recreated) with >= 20 clone/drop operations, or an actor freed by its last weak reference after termination; distinct = distinct byte strings"),
+    ]
+}
+
+fn all_base() -> Vec<PropSpec> {
     vec![
         PropSpec {
             min_nontrivial: 1000,
